@@ -1,8 +1,14 @@
 use std::cell::RefCell;
 use std::collections::BTreeMap;
 use std::rc::Rc;
+#[cfg(folo_verif)]
+use std::sync::Arc;
+#[cfg(not(folo_verif))]
 use std::sync::{Arc, Mutex};
 
+
+#[cfg(folo_verif)]
+use crate::verif_sync::Mutex;
 use crate::{LayoutKey, RawOpaquePool, RawOpaquePoolThreadSafe};
 
 // These are the core data sets shared by the pool objects and the handle objects.
